@@ -19,6 +19,16 @@
 //!
 //! Observed: the on_connect / on_disconnect log after all clients are gone and
 //! `Server::shutdown` returned (and a settle deadline), as (kind, id, allow).
+//!
+//! Second case kind, raw `H,<threads>,<per>,<path>`: concurrent id allocation. `threads` OS
+//! threads are released together by a spin barrier and each draws `per` connection ids
+//! from the real process-wide allocator through the public constructors that real accepts
+//! use (`path` 0 = `OnDisconnectGuard::empty`, 1 = `ClientRequest::new`, 2 = even threads
+//! the one, odd threads the other). One id is drawn before the threads are released and
+//! one after all have joined. Observed: those two ids and every thread's id sequence in
+//! the order it was drawn. (The model: every allocation is ONE atomic step of the shared
+//! counter, so under every interleaving all ids are distinct, each thread's sequence is
+//! strictly increasing and the counter advanced by exactly the number of allocations.)
 use std::{
     net::{Ipv4Addr, SocketAddr},
     sync::{
@@ -33,7 +43,11 @@ use iroh_base::{EndpointId, RelayUrl, SecretKey};
 use iroh_dns::dns::DnsResolver;
 use iroh_relay::{
     client::{Client, ClientBuilder},
-    server::{Access, AccessControl, ClientRequest, ConnectionId, RelayConfig, Server, ServerConfig},
+    http::ProtocolVersion,
+    server::{
+        Access, AccessControl, ClientRequest, ConnectionId, OnDisconnectGuard, RelayConfig, Server,
+        ServerConfig,
+    },
     tls::{CaTlsConfig, default_provider},
 };
 use tokio::{
@@ -335,7 +349,75 @@ fn run_once(attempts: &[Attempt], slow: u32) -> (Vec<u64>, Vec<(u64, u64, bool)>
     r
 }
 
+// ------------------------------------------------- concurrent id allocation
+fn draw(path: u64, thread: u64, ep: EndpointId) -> u64 {
+    let via_request = match path {
+        0 => false,
+        1 => true,
+        _ => thread % 2 == 1,
+    };
+    if via_request {
+        // what `RelayService::accept` does for every authenticated connection (http_server.rs:873)
+        let (parts, ()) = http::Request::new(()).into_parts();
+        cid_num(ClientRequest::new(ep, ProtocolVersion::V2, parts).connection_id())
+    } else {
+        cid_num(OnDisconnectGuard::empty(ep).connection_id())
+    }
+}
+
+fn hammer(threads: u64, per: u64, path: u64) -> (u64, u64, Vec<Vec<u64>>) {
+    use std::sync::atomic::{AtomicBool, AtomicUsize};
+    let ep = sk_of(1).public();
+    let ready = Arc::new(AtomicUsize::new(0));
+    let go = Arc::new(AtomicBool::new(false));
+    let handles: Vec<_> = (0..threads)
+        .map(|t| {
+            let (ready, go) = (ready.clone(), go.clone());
+            std::thread::spawn(move || {
+                let mut ids = Vec::with_capacity(per as usize);
+                ready.fetch_add(1, Ordering::SeqCst);
+                while !go.load(Ordering::Acquire) {
+                    std::hint::spin_loop();
+                }
+                for _ in 0..per {
+                    ids.push(draw(path, t, ep));
+                }
+                ids
+            })
+        })
+        .collect();
+    while ready.load(Ordering::SeqCst) < threads as usize {
+        std::thread::yield_now();
+    }
+    let before = draw(0, 0, ep);
+    go.store(true, Ordering::Release);
+    let seqs: Vec<Vec<u64>> = handles.into_iter().map(|h| h.join().expect("allocation thread")).collect();
+    let after = draw(0, 0, ep);
+    (before, after, seqs)
+}
+
+fn run_alloc(raw: &str) -> (String, String) {
+    let p: Vec<u64> = raw.split(',').skip(1).map(|x| x.trim().parse().expect("H,threads,per,path")).collect();
+    let (threads, per, path) = (p[0].clamp(1, 64), p[1].min(100_000), p[2]);
+    let (before, after, seqs) = match catch(|| hammer(threads, per, path)) {
+        Caught::Value(v) => v,
+        Caught::Panicked(m) => {
+            eprintln!("c07 allocation panic: {m}");
+            (0, 0, vec![])
+        }
+    };
+    let coq_in = format!("(C07.IAlloc {threads} {per})");
+    let coq_out = format!(
+        "(C07.OAlloc {before} {after} {})",
+        coq_list(seqs.iter(), |s| coq_list(s.iter(), |x| x.to_string()))
+    );
+    (coq_in, coq_out)
+}
+
 fn run(raw: &str) -> (String, String) {
+    if raw.starts_with('H') {
+        return run_alloc(raw);
+    }
     let attempts = parse(raw);
     let r = catch(|| {
         let first = run_once(&attempts, 1);
@@ -355,12 +437,18 @@ fn run(raw: &str) -> (String, String) {
     for (a, e) in attempts.iter().zip(expect.iter().skip(1)) {
         specs.push(format!("C07.mkSpec {e} {}", coq_bool(a.allow)));
     }
-    let coq_in = format!("[{}]", specs.join("; "));
-    let coq_out = coq_list(log.iter(), |(k, id, a)| format!("({k}, {id}, {})", coq_bool(*a)));
+    let coq_in = format!("(C07.IScen [{}])", specs.join("; "));
+    let coq_out = format!("(C07.OLog {})", coq_list(log.iter(), |(k, id, a)| format!("({k}, {id}, {})", coq_bool(*a))));
     (coq_in, coq_out)
 }
 
-fn generate(rng: &mut Rng, _i: u64, _n: u64) -> String {
+fn generate(rng: &mut Rng, i: u64, _n: u64) -> String {
+    // every 8th case hammers the id allocator from several OS threads
+    if i % 8 == 3 {
+        let threads = *rng.pick(&[2u64, 4, 8, 8, 8, 12, 16]);
+        let per = *rng.pick(&[128u64, 256, 384, 384, 768]);
+        return format!("H,{threads},{},{}", per.min(3072 / threads), rng.below(3));
+    }
     let n = rng.range(1, 4);
     let mut v: Vec<String> = vec![];
     let mut keys: Vec<u64> = vec![];
